@@ -177,6 +177,13 @@ class Instance:
             self.annotations = getattr(self.type, "__metadata__", [])
             self.type = get_args(self.type)[0]
             self.origin_type = get_type_origin(self.type)
+            if self.__self_builder is None and is_dataclass(self.origin_type):
+                # Annotated[G[int], ...]: the origin of the Annotated form is
+                # the alias G[int], the dataclass shows up only now
+                self.__self_builder = CodeBuilder(
+                    self.origin_type, get_args(self.type)
+                )
+                self.__self_builder.reset()
 
     def update_type(self, new_type: Type) -> None:
         if self.__owner_builder:
